@@ -225,7 +225,14 @@ func (m *machine) yield(self *thread) {
 	if len(m.threads) <= 1 {
 		return
 	}
-	next := m.pickNext(nil)
+	// deterministic mode: round robin starting after self, so the others run until they block
+	// and the baton comes back; nondeterministic mode: any runnable thread (a choice)
+	var next *thread
+	if m.schedNondet {
+		next = m.pickNext(nil)
+	} else {
+		next = m.pickNext(self)
+	}
 	if next == nil || next == self {
 		return
 	}
